@@ -317,3 +317,45 @@ def run_rounded_totals(ctx):
                     ctx.violation(f"weights {ws} at position {h}/2^32 give {json.dumps(a)}, their running totals {cum} give {json.dumps(b)}: the running totals of "
                                   f"weights are the plain left-to-right sums", {"weights": [repr(w) for w in ws], "cum_weights": [repr(c) for c in cum], "h": h, "impl_weights": a, "impl_cum": b})
                     return
+
+
+def key_lengths(max_pow):
+    """key lengths m*2^j + d and m*10^j + d: next to every multiple of a power of two up to 2^max_pow (m odd, so 3*2^14 = 48 KiB, 5*2^12, ... are met
+    as well as the powers themselves) and of a power of ten: where a digest computed block by block, slice by slice or buffer by buffer can drop or repeat a piece"""
+    out = set()
+    for j in range(6, max_pow + 1):
+        for m in (1, 3, 5, 7):
+            if m * 2 ** j <= 2 ** max_pow:
+                out.update(m * 2 ** j + d for d in (-1, 0, 1, 2))
+    for j in range(2, 7):
+        for m in range(1, 10):
+            if m * 10 ** j <= 2 ** max_pow:
+                out.update(m * 10 ** j + d for d in (0, 1))
+    return sorted(out)
+
+
+def run_key_lengths(ctx, max_pow):
+    """units whose whole hash key (salt + fields in name order) has exactly such a length and which differ only in the key's LAST character: each is assigned
+    by the first 32 bits of MD5 of the whole key"""
+    from pyab_experiment.experiment_evaluator import ExperimentEvaluator
+    labels = "abcdefghijklmnop"
+    groups = ", ".join('"%s" weighted 1' % c for c in labels)
+    one = ExperimentEvaluator('def e { salt: "s" splitters: u return %s }' % groups)
+    two = ExperimentEvaluator('def e { salt: "s" splitters: blob, shard return %s }' % groups)
+    ws = ["1"] * len(labels)
+    seen = {}
+    for n in key_lengths(max_pow):
+        for body in (("k", "é") if n <= 2 ** 17 else ("k",)):
+            for last in ("Y", "Z"):
+                envs = [("one", one, {"u": body * (n - 2) + last}, ["u"]), ("two", two, {"blob": body * (n - 2), "shard": last}, ["blob", "shard"])]
+                for form, ev, env, names in envs[: 2 if n <= 2 ** 18 or last == "Y" else 1]:
+                    got = common.outcome_of(lambda: ev(**env))
+                    h = gen.published_position("s", names, env)
+                    want = {"g": {"s": labels[gen.spec_indices(ws, h)[0]]}}
+                    ctx.count("key-length:" + form)
+                    if got != want:
+                        ctx.case(("key-length", n, body, last, form), True)
+                        ctx.violation(f"a unit whose hash key has {n} characters (salt 's', then {body!r} repeated, ending in {last!r}; {form} splitter field(s)) gets {json.dumps(got)}; "
+                                      f"md5 of the whole key selects {json.dumps(want)}", {"key_length": n, "body": body, "last": last, "fields": form, "impl": got, "spec": want})
+                        return
+        ctx.case(("key-length", n), True)
